@@ -384,10 +384,10 @@ def load_on_reset(ctx):
             if 'COLssInit' not in names and not (fname == 'CONodeInit' and 'CODictInit' in names and 'CONmtInit' not in names):
                 bad = 'a path does not re-initialise the LSS slave'
         if bad:
-            ctx.ob(P, 'RF9-lss', fname, site, None)
-            ctx.find(P, 'RF9-lss', fname, 'lss-load:%s' % what, m.loc(fname, m.funcs[fname].line), '%s: %s' % (what, bad))
+            ctx.ob(P + ['C20'], 'RF9-lss', fname, site, None)
+            ctx.find(P + ['C20'], 'RF9-lss', fname, 'lss-load:%s' % what, m.loc(fname, m.funcs[fname].line), '%s: %s' % (what, bad))
         else:
-            ctx.ob(P, 'RF9-lss', fname, site, 'COLssLoad and COLssInit on every path (%d traces)' % len(trs))
+            ctx.ob(P + ['C20'], 'RF9-lss', fname, site, 'COLssLoad and COLssInit on every path (%d traces)' % len(trs))
 
 
 def run(ctx):
